@@ -102,12 +102,7 @@ fn generate_variables_struct(
                 let value = graphql_parser_value_to_literal(
                     default,
                     variable.r#type.id,
-                    variable
-                        .r#type
-                        .qualifiers
-                        .first()
-                        .map(|qual| !qual.is_required())
-                        .unwrap_or(true),
+                    &variable.r#type.qualifiers,
                     query,
                 );
 
@@ -252,11 +247,12 @@ fn generate_fragment_definitions<'a>(
     })
 }
 
-/// For default value constructors.
+/// For default value constructors. `qualifiers` are those of the position the value is for: they
+/// say where the generated type has an `Option`, at every nesting level of a list.
 fn graphql_parser_value_to_literal<'doc, T>(
     value: &graphql_parser::query::Value<'doc, T>,
     ty: TypeId,
-    is_optional: bool,
+    qualifiers: &[GraphqlTypeQualifier],
     query: &BoundQuery<'_>,
 ) -> TokenStream
 where
@@ -264,6 +260,11 @@ where
     T::Value: quote::ToTokens,
 {
     use graphql_parser::query::Value;
+
+    let (is_optional, qualifiers) = match qualifiers.split_first() {
+        Some((GraphqlTypeQualifier::Required, rest)) => (false, rest),
+        _ => (true, qualifiers),
+    };
 
     let inner = match value {
         Value::Boolean(b) => {
@@ -283,9 +284,13 @@ where
         }
         Value::Enum(en) => quote!(#en),
         Value::List(inner) => {
+            let element_qualifiers = match qualifiers.split_first() {
+                Some((GraphqlTypeQualifier::List, rest)) => rest,
+                _ => qualifiers,
+            };
             let elements = inner
                 .iter()
-                .map(|val| graphql_parser_value_to_literal(val, ty, false, query));
+                .map(|val| graphql_parser_value_to_literal(val, ty, element_qualifiers, query));
             quote! {
                 vec![
                     #(#elements,)*
@@ -332,7 +337,7 @@ where
                     let value = graphql_parser_value_to_literal(
                         default_value,
                         r#type.id,
-                        r#type.is_optional(),
+                        &r#type.qualifiers,
                         query,
                     );
                     quote!(#field_name: #value)
